@@ -24,7 +24,7 @@ def run(ctx):
     # scheduler walks: offsets at every stop position under arbitrary interleavings (stop scripts stop after k objects)
     nw = 150 if q else 2500
     walks = [{"kind": "walk", "cfg": rng.choice(configs), "script": rng.choice(plain + stop[:60]), "seed": rng.randrange(1 << 30),
-              "cancelStep": -1, "variant": rng.randrange(1000)} for _ in range(nw)]
+              "cancelStep": -1, "variant": rng.randrange(1000), "weights": rng.choice(P.WEIGHTS)} for _ in range(nw)]
     cases += walks
     ctx.tick("model_check+gen")
     recs = P.run_pipe(ctx, cases)
